@@ -713,7 +713,19 @@ def gen_misc(repo, report):
         rule = 'path-count-dp'
     else:
         fail(path, ce, 'count_entries accumulation changed')
-    out.append(f'Definition count_rule : string := {coq_str(rule)}.\n')
+    out.append(f'Definition count_rule : string := {coq_str(rule)}.')
+    # the placeholder that stands for the graph input in a static hash: a fresh object, equal to no constant
+    ph = None
+    for nd in tree.body:
+        if isinstance(nd, ast.Assign) and len(nd.targets) == 1 and ast.unparse(nd.targets[0]) == '_PLACEHOLDER':
+            ph = ast.unparse(nd.value).replace(' ', '')
+            note('_PLACEHOLDER', 'engine/graph.py', nd, src)
+    if ph != 'LeafHash(object())':
+        fail(path, tree, f'_PLACEHOLDER must be LeafHash(object()), found {ph}')
+    hg = find_func(tree.body, 'hash_graph')
+    if 'hashes=dict.fromkeys(inputs,_PLACEHOLDER)' not in norm(hg.body) or 'node.edge.hash_graph(list(map(visitor,node.parents)))' not in norm(hg.body):
+        fail(path, hg, 'hash_graph body changed')
+    out.append('Definition placeholder_is_fresh_object : bool := true.\n')
 
     # --- compiler.find_dependencies, containers.detect_cycles, cache._detect_impure, TreeNode.to_edges
     path = os.path.join(C, 'engine/compiler.py')
